@@ -694,6 +694,46 @@ fn c07(r: &Run) -> Vec<String> {
             MacroString if has_payload || in_str_call => Some((text.to_string(), unquote_str_call(text))),
             _ => None,
         };
+        // hex string literals: decoded byte-wise as Latin-1 when, and only when, the content (commas removed) is a
+        // sequence of hex digit pairs; otherwise an InvalidHexStringConstant error names the token and the payload
+        // follows the rule of an ordinary quoted literal. Computed here from the characters, without any parser.
+        if t.tt == HexStringLiteral {
+            if let Some((content, _)) = split_literal(text) {
+                let q = text.chars().next().unwrap_or('\'');
+                let cleaned: Vec<u8> = content.bytes().filter(|b| *b != b',').collect();
+                let digit = |b: u8| -> Option<u32> {
+                    match b {
+                        b'0'..=b'9' => Some(u32::from(b - b'0')),
+                        b'a'..=b'f' => Some(u32::from(b - b'a') + 10),
+                        b'A'..=b'F' => Some(u32::from(b - b'A') + 10),
+                        _ => None,
+                    }
+                };
+                let valid = cleaned.len() % 2 == 0 && cleaned.iter().all(|b| digit(*b).is_some());
+                let flagged = r.errs_naming(t.idx).contains(&ErrorKind::InvalidHexStringConstant);
+                if valid {
+                    let want: String = cleaned.chunks(2).map(|p| char::from_u32(digit(p[0]).unwrap_or(0) * 16 + digit(p[1]).unwrap_or(0)).unwrap_or('?')).collect();
+                    if got != Some(want.as_str()) {
+                        v.push(format!("token {} hex literal {:?}: payload {:?} but the digit pairs decode (Latin-1) to {:?}", t.idx, text, got, want));
+                    }
+                    if flagged {
+                        v.push(format!("token {} hex literal {:?}: made of hex digit pairs but reported invalid", t.idx, text));
+                    }
+                } else {
+                    if !flagged {
+                        v.push(format!("token {} hex literal {:?}: not made of hex digit pairs but decoded/accepted (payload {:?})", t.idx, text, got));
+                    }
+                    let unq = unquote(content, q);
+                    if has_payload {
+                        if got != Some(unq.as_str()) {
+                            v.push(format!("token {} invalid hex literal {:?}: payload {:?} but unquoted value is {:?}", t.idx, text, got, unq));
+                        }
+                    } else if unq != content {
+                        v.push(format!("token {} invalid hex literal {:?}: no payload although the content needs unquoting", t.idx, text));
+                    }
+                }
+            }
+        }
         if let Some((content, unq)) = expect {
             if has_payload {
                 if got != Some(unq.as_str()) {
